@@ -795,19 +795,15 @@ impl StoryState {
             copy.current_flow.current_choices = self.current_flow.current_choices.clone();
         }
 
-        // The copy of the state has its own copy of the named flows dictionary,
-        // except with the current flow replaced with the copy above
-        // (Assuming we're in multi-flow mode at all. If we're not then
-        // the above copy is simply the default flow copy and we're done)
+        // The copy of the state has its own copy of the named flows dictionary
+        // (assuming we're in multi-flow mode at all). named_flows only holds the
+        // flows that are NOT current (switch_flow_internal moves them in and out),
+        // so the copied current flow must not be inserted: the duplicate would go
+        // stale as soon as the story moves on, and it is written over the live
+        // flow when the state is saved.
         if self.named_flows.is_some() {
-            let mut nf = self.named_flows.clone();
-            nf.as_mut().unwrap().insert(
-                copy.current_flow.name.to_string(),
-                copy.current_flow.clone(),
-            );
+            copy.named_flows = self.named_flows.clone();
             copy.alive_flow_names_dirty = true;
-
-            copy.named_flows = nf;
         }
 
         if self.has_error() {
